@@ -176,7 +176,9 @@ def shrink(lines, pred0, budget=400):
 BORROWED = {'C02': {('C08', 'dup-flag'), ('C08', 'first-dup'), ('C12', 'resume-dup'), ('C08', 'content'), ('C12', 'resume-content')},
             'C07': {('C08', 'content'), ('C08', 'dup-flag'), ('C08', 'first-dup')},
             # C04: "... onDisconnection ... after pending requests have been failed or preserved as the session mode demands"
-            'C04': {('C11', 'not-failed'), ('C12', 'publish-failed-on-loss'), ('C13', 'timer-of-lost-connection')}}
+            'C04': {('C11', 'not-failed'), ('C12', 'publish-failed-on-loss'), ('C13', 'timer-of-lost-connection')},
+            # C16: "Pending requests are afterwards settled by the ordinary connection-loss handling, so none is left hanging"
+            'C16': {('C07', 'orphan'), ('C11', 'not-failed')}}
 
 
 def judge(prop, lines):
@@ -276,7 +278,7 @@ def extend_search(prop, ctx, res, limit=6):
         prefix = d.get('scenario')
         if not prefix or not prefix[0].startswith('factory'):
             continue
-        for cont in ('drain', 'ack', 'lose', 'resume', 'fresh'):
+        for cont in ('drain', 'ack', 'pubrec', 'one+pubrec', 'lose', 'resume', 'fresh'):
             try:
                 sc = longrun.Script(int(prefix[0].split()[1]))
                 for l in prefix[1:]:
@@ -287,6 +289,17 @@ def extend_search(prop, ctx, res, limit=6):
                 live = [i for i in range(len(w.protos)) if i not in gone and i in tried]
                 f = w.factory
                 if cont == 'drain':
+                    sc.fire_all(12)
+                if cont in ('pubrec', 'one+pubrec'):
+                    # only the first half of every QoS 2 exchange is acknowledged, then time passes: an orphaned PUBLISH timer shows as a
+                    # PUBLISH after its PUBREL
+                    if cont == 'one+pubrec':
+                        sc.fire_all(1)
+                    for i in live:
+                        a = w.protos[i].addr
+                        for r in list(f.windowPublish.get(a, {}).values()):
+                            if r.qos == 2:
+                                sc.do('recv %d %s' % (i, hx(ack(0x50, r.msgId))))
                     sc.fire_all(12)
                 if cont == 'ack':
                     for i in live:
